@@ -6,6 +6,9 @@ import sys
 import tempfile
 
 logging.disable(logging.CRITICAL)
+import os  # noqa: E402
+if os.environ.get("HASHSTORE_SRC"):      # experiments on a changed copy: same tree as the engine reads
+    sys.path.insert(0, os.path.dirname(os.path.abspath(os.environ["HASHSTORE_SRC"])))
 from hashstore.filehashstore import FileHashStore  # noqa: E402
 
 keys = json.loads(sys.stdin.read())
